@@ -53,6 +53,10 @@ MUTANTS = {
     'c05-hv-forward-never-ends': ('C05', HI, 'HexVertexIter& HexVertexIter::operator++() {\n\n    ++cur_index_;\n    if(cur_index_ == vertices_.size()) {\n        cur_index_ = 0;\n        ++lap_;\n        if (lap_ >= max_laps_)', 'HexVertexIter& HexVertexIter::operator++() {\n\n    ++cur_index_;\n    if(cur_index_ == vertices_.size()) {\n        cur_index_ = 0;\n        ++lap_;\n        if (lap_ > max_laps_)', 'hex'),
     # seeded/C15e_tet_add_halfface_bypasses_valence_guard (bin/seedtest.py: CAUGHT, C15:TetShape)
     'tet-add-halfface-bypasses-guard': ('C15', TK, 'return halfface_handle(add_face(_halfedges, _topologyCheck), 0);', 'return halfface_handle(TopologyKernel::add_face(_halfedges, _topologyCheck), 0);', 'face-entry'),
+    # C11 stage; seeded/C11e_hex_add_cell_reordered_skips_check (exit 1, C11:add_cell(hex))
+    'c11-hex-reordered-skips-check': ('C11', HK, 'return TopologyKernel::add_cell(std::move(ordered_halffaces), _topologyCheck);', 'return TopologyKernel::add_cell(std::move(ordered_halffaces), false);', 'hex-cells'),
+    'c11-tet-add-face-ignores-check': ('C11', TK, 'return TopologyKernel::add_face(std::move(_halfedges), _topologyCheck);', 'return TopologyKernel::add_face(std::move(_halfedges), false);', 'tet-faces'),
+    # seeded/C15h_tet_add_cell_v_reuse_branch_halfface is a multi-line patch: verified with bin/seedtest.py (CAUGHT, C15:AddTetRel)
     'tet-label-getlabel-halfedge': ('C15', TTC, 'return opposite(hel);', 'return hel;', 'labels'),
     'tet-label-constructor-cd': ('C15', TTC, 'hfh<ACD>() = cur_hfh;\n                heh_[CD] = *heh_it;', 'hfh<ACD>() = cur_hfh;\n                heh_[CD] = heh;', 'labels'),
     'tet-triangle-start': ('C15', TRC, 'if (idx == 0 && _mesh.from_vertex_handle(heh) != _a) {', 'if (idx == 0 && _mesh.to_vertex_handle(heh) != _a) {', 'labels'),
